@@ -2,9 +2,13 @@
    Statements only; model and tie as for C04.  The reader half of the property (running counters
    equal the header values for every complete file) is decided by the correspondence run: the
    extracted read_session, the real reader and the header are compared on every file written and on
-   the reference logs (PARTIAL: no theorem about read_session yet). *)
+   the reference logs.  Proved on the reader side, at the level of the uncompressed stream: C05_reader_counts_as_header —
+   for ANY list of well-formed objects, the objectCount that write_session stores in the header is the value of the parser
+   stage's running counter (currentObjectCount) after it has read those objects back (both: the objects written, type-115
+   restore-point objects excluded, modulo 2^32).  PARTIAL: the uncompressed-size counter of the inflating stage
+   (currentUncompressedFileSize) against the header is decided by the correspondence run only. *)
 From VB Require Import Base IR Sem Tables BaseFacts FileModel FileFacts.
-From VB Require Import Classes Consts Common FileDefs FileEq.
+From VB Require Import Classes Consts Common FileDefs FileEq StreamRT.
 Local Open Scope Z_scope.
 
 Theorem C05_header : forall deflate cap cfg hdr objs f, f_write_session deflate cap cfg hdr objs = Ok f ->
@@ -29,3 +33,23 @@ Theorem C05_header : forall deflate cap cfg hdr objs f, f_write_session deflate 
                g <> fid_of "FileStatistics" "objectCount" -> g <> fid_of "FileStatistics" "restorePointsOffset" -> hdr' g = hdr g).
 Proof. exact file_shape. Qed.
 Print Assumptions C05_header.
+
+(* the header's objectCount is what the reader's own counter arrives at *)
+Theorem C05_reader_counts_as_header : forall deflate cap cfg hdr (objs : list wobj) f, Forall wobj_ok objs ->
+  f_write_session deflate cap cfg hdr (map (fun o => (w_bytes o, counted o)) objs) = Ok f ->
+  let U := concat (map w_bytes objs) in
+  exists hdr' hbytes h0 conts, f = hbytes ++ concat conts /\ enc cs cap C_stats hdr' = Ok (h0, hbytes) /\
+    hdr' (fid_of "FileStatistics" "objectCount") =
+      VInt (snd (fst (obj_loop cs scan_p default_cap factory_table C_ohb fid_objectSize fid_objectType (2 * length U + 16) (mk_ustream U) [] 0))).
+Proof.
+  intros deflate cap cfg hdr objs f Hall Hw U.
+  destruct (file_shape deflate cap cfg hdr _ f Hw) as (ps & conts & hdr' & hbytes & h0 & h00 & hbytes0 & E1 & E2 & _ & _ & _ & _ & Hc & _).
+  exists hdr', hbytes, h0, conts. split; [exact E1|]. split; [exact E2|].
+  rewrite Hc, counted_tags. unfold U. rewrite (stream_count objs Hall). reflexivity.
+Qed.
+Print Assumptions C05_reader_counts_as_header.
+
+(* non-vacuity: there are counted and uncounted well-formed objects (StreamRT.ex_can_ok is one of the former) *)
+Example C05_count_example : match ex_obj "CanMessage" 1 48 48 with Some o => wobj_ok o /\ counted o = true | None => False end.
+Proof. pose proof ex_can_ok as H. destruct (ex_obj "CanMessage" 1 48 48) as [o|] eqn:E; [|exact H]. split; [exact H|].
+  unfold ex_obj in E. destruct (enc cs default_cap _ _) as [[s' b]|]; [|discriminate]. inversion E; subst. reflexivity. Qed.
